@@ -1,2 +1,183 @@
 // ---- unit prelude: permissioner (C09) ----------------------------------------------------------
+// Spec vocabulary for the permission band of DESIGN.md §6/C09. Nothing here is executable.
 pub enum IggyError { Unauthorized }
+
+// --- flags as seen through the denormalised tables (absent record = flag not set) ---
+pub open spec fn g_has(p: &Permissioner, u: u32) -> bool { p.users_permissions@.contains_key(u) }
+pub open spec fn g_of(p: &Permissioner, u: u32) -> GlobalPermissions { p.users_permissions@[u] }
+pub open spec fn s_has(p: &Permissioner, u: u32, s: u32) -> bool { p.users_streams_permissions@.contains_key((u, s)) }
+pub open spec fn s_of(p: &Permissioner, u: u32, s: u32) -> StreamPermissions { p.users_streams_permissions@[(u, s)] }
+pub open spec fn t_has(p: &Permissioner, u: u32, s: u32, t: u32) -> bool {
+    s_has(p, u, s) && s_of(p, u, s).topics is Some && s_of(p, u, s).topics->0@.contains_key(t)
+}
+pub open spec fn t_of(p: &Permissioner, u: u32, s: u32, t: u32) -> TopicPermissions { s_of(p, u, s).topics->0@[t] }
+
+// --- the documented hierarchy: the MOST each operation class can be justified by (allowed_max) ---
+// A flag counts only at a scope that covers the target: global covers everything, the record of stream s
+// covers s and its topics, the record of topic t in s covers (s,t) only.
+pub open spec fn server_set(p: &Permissioner, u: u32) -> bool {
+    g_has(p, u) && (g_of(p, u).manage_servers || g_of(p, u).read_servers)
+}
+pub open spec fn user_read_set(p: &Permissioner, u: u32) -> bool {
+    g_has(p, u) && (g_of(p, u).manage_users || g_of(p, u).read_users)
+}
+pub open spec fn user_write_set(p: &Permissioner, u: u32) -> bool {
+    g_has(p, u) && g_of(p, u).manage_users
+}
+pub open spec fn streams_list_set(p: &Permissioner, u: u32) -> bool {
+    g_has(p, u) && (g_of(p, u).manage_streams || g_of(p, u).read_streams)
+}
+pub open spec fn stream_create_set(p: &Permissioner, u: u32) -> bool {
+    g_has(p, u) && g_of(p, u).manage_streams
+}
+pub open spec fn stream_read_set(p: &Permissioner, u: u32, s: u32) -> bool {
+    streams_list_set(p, u) || (s_has(p, u, s) && (s_of(p, u, s).manage_stream || s_of(p, u, s).read_stream))
+}
+pub open spec fn stream_write_set(p: &Permissioner, u: u32, s: u32) -> bool {
+    stream_create_set(p, u) || (s_has(p, u, s) && s_of(p, u, s).manage_stream)
+}
+// reading "all topics of s" (listing) — only scopes covering the whole stream
+pub open spec fn topics_read_scope(p: &Permissioner, u: u32, s: u32) -> bool {
+    stream_read_set(p, u, s)
+    || (g_has(p, u) && (g_of(p, u).manage_topics || g_of(p, u).read_topics))
+    || (s_has(p, u, s) && (s_of(p, u, s).manage_topics || s_of(p, u, s).read_topics))
+}
+pub open spec fn topic_read_set(p: &Permissioner, u: u32, s: u32, t: u32) -> bool {
+    topics_read_scope(p, u, s) || (t_has(p, u, s, t) && (t_of(p, u, s, t).manage_topic || t_of(p, u, s, t).read_topic))
+}
+pub open spec fn topics_write_scope(p: &Permissioner, u: u32, s: u32) -> bool {
+    stream_write_set(p, u, s)
+    || (g_has(p, u) && g_of(p, u).manage_topics)
+    || (s_has(p, u, s) && s_of(p, u, s).manage_topics)
+}
+pub open spec fn topic_write_set(p: &Permissioner, u: u32, s: u32, t: u32) -> bool {
+    topics_write_scope(p, u, s) || (t_has(p, u, s, t) && t_of(p, u, s, t).manage_topic)
+}
+pub open spec fn poll_set(p: &Permissioner, u: u32, s: u32, t: u32) -> bool {
+    topic_read_set(p, u, s, t)
+    || (g_has(p, u) && g_of(p, u).poll_messages)
+    || (s_has(p, u, s) && s_of(p, u, s).poll_messages)
+    || (t_has(p, u, s, t) && t_of(p, u, s, t).poll_messages)
+}
+pub open spec fn send_set(p: &Permissioner, u: u32, s: u32, t: u32) -> bool {
+    topic_write_set(p, u, s, t)
+    || (g_has(p, u) && g_of(p, u).send_messages)
+    || (s_has(p, u, s) && s_of(p, u, s).send_messages)
+    || (t_has(p, u, s, t) && t_of(p, u, s, t).send_messages)
+}
+
+// --- denormalisation invariant of the four membership sets (what the message rules rely on) ---
+// (quantifiers are triggered on the raw map/set membership terms so that they survive updates of
+//  *other* tables of the same struct)
+pub open spec fn perm_wf(p: &Permissioner) -> bool {
+    &&& forall|u: u32| #[trigger] p.users_that_can_poll_messages_from_all_streams@.contains(u)
+            <==> (p.users_permissions@.contains_key(u) && p.users_permissions@[u].poll_messages)
+    &&& forall|u: u32| #[trigger] p.users_that_can_send_messages_to_all_streams@.contains(u)
+            <==> (p.users_permissions@.contains_key(u) && p.users_permissions@[u].send_messages)
+    &&& forall|u: u32, s: u32| #[trigger] p.users_that_can_poll_messages_from_specific_streams@.contains((u, s))
+            <==> (p.users_streams_permissions@.contains_key((u, s)) && p.users_streams_permissions@[(u, s)].poll_messages)
+    &&& forall|u: u32, s: u32| #[trigger] p.users_that_can_send_messages_to_specific_streams@.contains((u, s))
+            <==> (p.users_streams_permissions@.contains_key((u, s)) && p.users_streams_permissions@[(u, s)].send_messages)
+}
+
+// user u has no row in any table
+pub open spec fn no_rows(p: &Permissioner, u: u32) -> bool {
+    &&& !p.users_permissions@.contains_key(u)
+    &&& forall|s: u32| !#[trigger] p.users_streams_permissions@.contains_key((u, s))
+    &&& !p.users_that_can_poll_messages_from_all_streams@.contains(u)
+    &&& !p.users_that_can_send_messages_to_all_streams@.contains(u)
+    &&& forall|s: u32| !#[trigger] p.users_that_can_poll_messages_from_specific_streams@.contains((u, s))
+    &&& forall|s: u32| !#[trigger] p.users_that_can_send_messages_to_specific_streams@.contains((u, s))
+}
+
+// rows of every user other than u are identical in a and b
+pub open spec fn others_same(a: &Permissioner, b: &Permissioner, u: u32) -> bool {
+    &&& forall|v: u32| v != u ==> (a.users_permissions@.contains_key(v) == #[trigger] b.users_permissions@.contains_key(v))
+    &&& forall|v: u32| v != u && a.users_permissions@.contains_key(v) ==> a.users_permissions@[v] == #[trigger] b.users_permissions@[v]
+    &&& forall|v: u32, s: u32| v != u ==> (a.users_streams_permissions@.contains_key((v, s)) == #[trigger] b.users_streams_permissions@.contains_key((v, s)))
+    &&& forall|v: u32, s: u32| v != u && a.users_streams_permissions@.contains_key((v, s)) ==> a.users_streams_permissions@[(v, s)] == #[trigger] b.users_streams_permissions@[(v, s)]
+    &&& forall|v: u32| v != u ==> a.users_that_can_poll_messages_from_all_streams@.contains(v) == #[trigger] b.users_that_can_poll_messages_from_all_streams@.contains(v)
+    &&& forall|v: u32| v != u ==> a.users_that_can_send_messages_to_all_streams@.contains(v) == #[trigger] b.users_that_can_send_messages_to_all_streams@.contains(v)
+    &&& forall|v: u32, s: u32| v != u ==> a.users_that_can_poll_messages_from_specific_streams@.contains((v, s)) == #[trigger] b.users_that_can_poll_messages_from_specific_streams@.contains((v, s))
+    &&& forall|v: u32, s: u32| v != u ==> a.users_that_can_send_messages_to_specific_streams@.contains((v, s)) == #[trigger] b.users_that_can_send_messages_to_specific_streams@.contains((v, s))
+}
+
+// the rows of user u are exactly the denormalisation of `perms`
+pub open spec fn rows_are(p: &Permissioner, u: u32, perms: Option<Permissions>) -> bool {
+    match perms {
+        None => no_rows(p, u),
+        Some(pm) => {
+            &&& p.users_permissions@.contains_key(u) && p.users_permissions@[u] == pm.global
+            &&& match pm.streams {
+                    None => forall|s: u32| !#[trigger] p.users_streams_permissions@.contains_key((u, s)),
+                    Some(m) => {
+                        &&& forall|s: u32| (#[trigger] p.users_streams_permissions@.contains_key((u, s))) == m@.contains_key(s)
+                        &&& forall|s: u32| m@.contains_key(s) ==> #[trigger] p.users_streams_permissions@[(u, s)] == m@[s]
+                    },
+                }
+        },
+    }
+}
+
+// --- exact transcripts of the rules (helper; carry monotonicity) ---
+pub open spec fn dec_server(p: &Permissioner, u: u32) -> bool { server_set(p, u) }
+pub open spec fn dec_user_read(p: &Permissioner, u: u32) -> bool { user_read_set(p, u) }
+pub open spec fn dec_user_write(p: &Permissioner, u: u32) -> bool { user_write_set(p, u) }
+pub open spec fn dec_get_streams(p: &Permissioner, u: u32) -> bool { streams_list_set(p, u) }
+pub open spec fn dec_create_stream(p: &Permissioner, u: u32) -> bool { stream_create_set(p, u) }
+pub open spec fn dec_get_stream(p: &Permissioner, u: u32, s: u32) -> bool { stream_read_set(p, u, s) }
+pub open spec fn dec_manage_stream(p: &Permissioner, u: u32, s: u32) -> bool { stream_write_set(p, u, s) }
+pub open spec fn dec_topics_global_read(p: &Permissioner, u: u32) -> bool {
+    g_has(p, u) && (g_of(p, u).read_streams || g_of(p, u).manage_streams || g_of(p, u).manage_topics || g_of(p, u).read_topics)
+}
+pub open spec fn dec_get_topics(p: &Permissioner, u: u32, s: u32) -> bool {
+    dec_topics_global_read(p, u) || (s_has(p, u, s) && (s_of(p, u, s).manage_topics || s_of(p, u, s).read_topics))
+}
+pub open spec fn dec_get_topic(p: &Permissioner, u: u32, s: u32, t: u32) -> bool {
+    dec_get_topics(p, u, s) || (t_has(p, u, s, t) && (t_of(p, u, s, t).manage_topic || t_of(p, u, s, t).read_topic))
+}
+pub open spec fn dec_create_topic(p: &Permissioner, u: u32, s: u32) -> bool {
+    (g_has(p, u) && (g_of(p, u).manage_streams || g_of(p, u).manage_topics)) || (s_has(p, u, s) && s_of(p, u, s).manage_topics)
+}
+pub open spec fn dec_manage_topic(p: &Permissioner, u: u32, s: u32, t: u32) -> bool {
+    dec_create_topic(p, u, s) || (t_has(p, u, s, t) && t_of(p, u, s, t).manage_topic)
+}
+pub open spec fn dec_poll(p: &Permissioner, u: u32, s: u32, t: u32) -> bool {
+    (g_has(p, u) && g_of(p, u).poll_messages)
+    || (s_has(p, u, s) && (s_of(p, u, s).poll_messages || s_of(p, u, s).read_stream || s_of(p, u, s).manage_topics || s_of(p, u, s).read_topics))
+    || (t_has(p, u, s, t) && (t_of(p, u, s, t).poll_messages || t_of(p, u, s, t).read_topic || t_of(p, u, s, t).manage_topic))
+}
+pub open spec fn dec_send(p: &Permissioner, u: u32, s: u32, t: u32) -> bool {
+    (g_has(p, u) && g_of(p, u).send_messages)
+    || (s_has(p, u, s) && (s_of(p, u, s).send_messages || s_of(p, u, s).manage_stream || s_of(p, u, s).manage_topics))
+    || (t_has(p, u, s, t) && (t_of(p, u, s, t).send_messages || t_of(p, u, s, t).manage_topic))
+}
+
+// --- "granting more": p ⊑ q for user u (every flag set in p is set in q, records only added) ---
+pub open spec fn g_leq(a: GlobalPermissions, b: GlobalPermissions) -> bool {
+    (a.manage_servers ==> b.manage_servers) && (a.read_servers ==> b.read_servers)
+    && (a.manage_users ==> b.manage_users) && (a.read_users ==> b.read_users)
+    && (a.manage_streams ==> b.manage_streams) && (a.read_streams ==> b.read_streams)
+    && (a.manage_topics ==> b.manage_topics) && (a.read_topics ==> b.read_topics)
+    && (a.poll_messages ==> b.poll_messages) && (a.send_messages ==> b.send_messages)
+}
+pub open spec fn t_leq(a: TopicPermissions, b: TopicPermissions) -> bool {
+    (a.manage_topic ==> b.manage_topic) && (a.read_topic ==> b.read_topic)
+    && (a.poll_messages ==> b.poll_messages) && (a.send_messages ==> b.send_messages)
+}
+pub open spec fn s_leq(a: StreamPermissions, b: StreamPermissions) -> bool {
+    (a.manage_stream ==> b.manage_stream) && (a.read_stream ==> b.read_stream)
+    && (a.manage_topics ==> b.manage_topics) && (a.read_topics ==> b.read_topics)
+    && (a.poll_messages ==> b.poll_messages) && (a.send_messages ==> b.send_messages)
+    && (a.topics is Some ==> b.topics is Some
+        && forall|t: u32| #[trigger] a.topics->0@.contains_key(t) ==> b.topics->0@.contains_key(t) && t_leq(a.topics->0@[t], b.topics->0@[t]))
+}
+pub open spec fn p_leq(p: &Permissioner, q: &Permissioner, u: u32) -> bool {
+    &&& g_has(p, u) ==> g_has(q, u) && g_leq(g_of(p, u), g_of(q, u))
+    &&& forall|s: u32| #[trigger] s_has(p, u, s) ==> s_has(q, u, s) && s_leq(s_of(p, u, s), s_of(q, u, s))
+}
+
+pub open spec fn is_root_global(g: GlobalPermissions) -> bool {
+    g.manage_servers && g.read_servers && g.manage_users && g.read_users && g.manage_streams && g.read_streams
+    && g.manage_topics && g.read_topics && g.poll_messages && g.send_messages
+}
